@@ -343,6 +343,10 @@ func c16Cases(thorough bool) (out []c16Case) {
 			}
 		}
 	}
+	// result-table cells that are not ASCII (multi-byte characters, invalid UTF-8, wide characters, a tab): column
+	// widths and padding must come out the same in both colour modes
+	recs = append(recs, "AGGREGATE|h|Zürich∥1∥k≔Zürich∥s≔Málaga∥count(x)≔1∥y≔3∥", "AGGREGATE|h|日本∥2∥k≔日本∥s≔\xff\xfe∥count(x)≔2∥y≔1∥",
+		"AGGREGATE|h|a\tb∥1∥k≔a\tb∥s≔€€€€€€€€€€€€∥count(x)≔1∥sum(y)≔5∥y≔2∥", "AGGREGATE|h|é∥1∥count(x)≔1∥sum(y)≔2∥")
 	recs = append(recs, "REMOTE|h|100|1|f|EOF\n", "REMOTE|h|100|1|f|Foo\n", "SERVER|h|FAIL", "REMOTE|h|100|1|f|E", "REMOTE|h|100|1|f|\n")
 	var small []string
 	c10Seq(toks, 1, "", func(m string) { small = append(small, m) })
@@ -391,7 +395,7 @@ func init() {
 		ID:    "C16",
 		Level: "exploration",
 		Rule: "server byte streams enumerated exhaustively: every message of <=4 (quick) / <=5 (thorough) tokens over a 22-token alphabet (incl. CR and CRLF) (record words, '|', '.', the hidden close message, numbers, severities, " +
-			"newline, the 0xAC message delimiter, the aggregate delimiters, an escape sequence), 30 well-formed/nearly well-formed records and ~230 records whose text field is a prefix or near miss of a severity word, each followed by every record or token, 5 records of 32-70 KB (alone, followed by a short record, split at the transport boundary), each record split across two Write calls " +
+			"newline, the 0xAC message delimiter, the aggregate delimiters, an escape sequence), 34 well-formed/nearly well-formed records (incl. AGGREGATE records whose group keys and values are multi-byte, wide or invalid UTF-8) and ~230 records whose text field is a prefix or near miss of a severity word, each followed by every record or token, 5 records of 32-70 KB (alone, followed by a short record, split at the transport boundary), each record split across two Write calls " +
 			"at every byte; each stream is fed to the real ClientHandler, MaprHandler (three queries, incl. order by a plain field and limit; the result report is produced afterwards) and HealthHandler twice (colours off/on) under the controlled scheduler; oracle: no panic in any goroutine and " +
 			"strip(coloured) == strip(uncoloured) where strip removes SGR escape sequences (applied to both sides); the same for 8 records with the colours taken from the repository's example JSON configuration file; non-trivial = the stream makes the client print something; " +
 			"plus, under ALL schedules within two deviations: a stream with the hidden close message written to each handler while one or two other goroutines shut the handler down and a third reads its commands (the tear-down of a connection), and AGGREGATE messages of two servers arriving while the reporter reads the shared result set: no panic, no deadlock, every message counted once",
